@@ -159,14 +159,27 @@ def check_C06(chk):
         cases.append({"id": next(nid), "plans": plans, "late": late, "mode": mode, "threads": 1 if mode == "after" else rng.randint(1, 8),
                       "eintr": 3 if k % 5 == 0 else 0})
 
+    # bursts: one or two members with many more messages pending at a single readiness event than any per-event budget
+    # (default socket buffers, so that they really are all queued when the member becomes ready)
+    bursts = []
+    for k in range(160 if thorough else 16):
+        m = rng.randint(1, 5)
+        plans = [([40] * rng.randint(0, 3), rng.random() < 0.7) for _ in range(m)]
+        for j in rng.sample(range(m), min(m, rng.randint(1, 2))):
+            plans[j] = ([40] * rng.choice([31, 32, 33, 34, 50, 64, 65, 100, 129, 150]), rng.random() < 0.7)
+        mode = ["after", "before", "during", "after"][k % 4]
+        bursts.append({"id": next(nid), "plans": plans, "late": [False] * m, "mode": mode, "threads": 1 if mode == "after" else rng.randint(1, 3),
+                       "eintr": 0, "burst": True})
+
     def run(chunk, binp=None, shim=True):
         lines = ["id=%d plan=%s mode=%s threads=%d eintr=%d" % (c["id"], plan_str(c["plans"], c.get("late")), c["mode"], c["threads"], c["eintr"]) for c in chunk]
-        recs, trace, rc, err = C.run_harness(binp or bins["default"], "rset", lines, env_extra={"VSHIM_SNDBUF": S}, shim=shim, timeout=900)
+        env = {} if (chunk and chunk[0].get("burst")) else {"VSHIM_SNDBUF": S}
+        recs, trace, rc, err = C.run_harness(binp or bins["default"], "rset", lines, env_extra=env, shim=shim, timeout=900)
         by = {r["id"]: r for r in recs if r.get("kind") == "rset"}
         aborted = any(r.get("kind") == "aborted" for r in recs)
         return [{"case": c, "rec": by.get(c["id"]), "stderr": err if c["id"] not in by else "", "trace": trace} for c in chunk
                 if c["id"] in by or not aborted]
-    chunks = [cases[i::8] for i in range(8)]
+    chunks = [cases[i::8] for i in range(8)] + [ch for ch in (bursts[i::4] for i in range(4)) if ch]
     with concurrent.futures.ThreadPoolExecutor(max_workers=8) as ex:
         items = [it for r in ex.map(run, chunks) for it in r]
     # in-process transport: oracle only (one event per select by design)
